@@ -213,3 +213,9 @@ claim("C28", "guard dominance with comparison provenance + who-may-call + table 
       "bech32 decoding, the Bech32m test, base32 conversion and the entity-byte lookup; the HRP-ignoring form has only the checking wrapper as "
       "caller; encoder and decoder share get_entity_hrp (exhaustive match); every HRP of a network carries its suffix; the NonFungibleLocalId / "
       "address parser's panic-capable constructs are discharged by dominance or audited. Round-trip equalities are not decided.", level="other")
+
+claim("C32", "must-pass-through of canonical-form gates + liveness + closed-world check that every prepare impl obtains its summary from a digest primitive",
+      "Decides: both preparation entries return Ok only past decoder construction (size and payload-prefix gates), the prepare call and "
+      "check_complete (= check_end on the same decoder); every PrepareError variant and PreparationSettings limit is live (limits followed "
+      "interprocedurally into the digest helpers); every prepare_from_* impl derives its Summary from a ConcatenatedDigest / SummarizedRaw "
+      "primitive or a delegated prepare with no separate un-hashed decode; raw primitives hash the consumed slice. Collision-freeness is not decided.")
